@@ -10,10 +10,12 @@ from . import fix as FX
 INVS = ["NonNegW", "SumsToOne", "Marginals", "Convex", "ZeroCov", "Single", "Monotone"]
 
 
-def cfg(n, small):
-    s = "SPECIFICATION Spec\nCONSTANTS\n  N = %d\n" % n
+def cfg(n, small, sample=None):
+    s = "SPECIFICATION Spec\nCONSTANTS\n  N = %d\n  Sample %s\n" % (n, "<- MCNoSample" if not sample else "<- MCSample")
     s += "  CovGrid <- %s\n  OutGrid <- %s\n  BaseGrid <- %s\n  Patterns <- %s\n" % (("MCCovSmall", "MCOutSmall", "MCBaseSmall", "MCPatSmall") if small else ("MCCov", "MCOut", "MCBase", "MCPat"))
-    s += "".join("INVARIANT %s\n" % i for i in INVS) + "CHECK_DEADLOCK FALSE\n"
+    # (with five programs the Monotone theorem - every coverage raised to every grid value, 32 combinations each - costs minutes: it is
+    # checked up to four programs; the monotone pairs of real outcomes are judged by the trace module for every N)
+    s += "".join("INVARIANT %s\n" % i for i in INVS if not (n >= 5 and i == "Monotone")) + "CHECK_DEADLOCK FALSE\n"
     return s
 
 
@@ -58,15 +60,22 @@ def run(prop, tier):
     at = C.quiet_atomica()
     V = C.Verdict(prop)
     thorough = tier == "thorough"
-    plan = [(1, False), (2, False), (3, not thorough)] + ([(4, True)] if thorough else [])
+    # (programs, small grids, sample): 1-3 programs (and 4 in the thorough tier) over every vector of the grids; 4 and 5 programs on random
+    # outcome / coverage vectors drawn by TLC (RandomSubset)
+    plan = [(1, False, None), (2, False, None), (3, not thorough, None)] + ([(4, True, None)] if thorough else [(4, True, (5, 16))]) + [(5, True, (6, 20) if thorough else (3, 10))]
     cov = dict(states=0, transitions=0, traces_validated_against_impl=0, samples=[], exhaustive=True, plan=[])
     records = []
     cases_all = []
-    for n, small in plan:
-        r, cases = C.enumerate_cases(["Rat", "Covout", "MCCovout"], "MCCovout", cfg(n, small), timeout=3000 if thorough else 1500)
+    for n, small, sample in plan:
+        gen = None
+        if sample:
+            gen = {"MCCovout.tla": open(C.SPEC + "/MCCovout.tla").read().replace("====", "MCSample == <<%d, %d>>\n====" % sample)}
+            cov["exhaustive"] = False
+            cov["exhaustive_note"] = "1-3 programs (4 in the thorough tier) exhaustive over the grids; 4 / 5 programs on vectors sampled by TLC (RandomSubset)"
+        r, cases = C.enumerate_cases(["Rat", "Covout", "MCCovout"], "MCCovout", cfg(n, small, sample), timeout=3000 if thorough else 1500, generated=gen)
         cov["states"] += r.distinct
         cov["transitions"] += r.generated
-        cov["plan"].append(dict(N=n, small_grids=small, cases=len(cases)))
+        cov["plan"].append(dict(N=n, small_grids=small, sampled=list(sample) if sample else None, cases=len(cases)))
         cases_all += cases
     rid = 0
     index = {}
